@@ -206,7 +206,7 @@ def run(ctx, rep: Report, deep: bool = False):
                 pos += rng.randint(1, 3)
             cur = pos + rng.randint(0, 12)
         titles = [t if t is not None else f"Untitled Track {k + 1}" for k, t in enumerate(titles)]
-        tail = rng.choice([1, 3, 4, 2351, 2352, 2353, rng.randint(1, 9000)])
+        tail = [1, 3, 4, 2351, 2352, 2353, rng.randint(1, 9000)][i % 7]  # every listed tail in every run (no draw)
         bin_len = 2352 * firsts[-1] + tail
         bin_bytes = bytes((rng.randrange(256) for _ in range(bin_len))) if bin_len < 200000 else os.urandom(bin_len)
         cases.append(Case(FC.op_windows(lines, bin_len), FC.windows_real(lines, bin_len)))
